@@ -6,7 +6,7 @@
    location) while its content is gone — exactly "other index entries unaffected" as the property words it; when
    two keys share a *bucket* (SHA-1 collision) remove_fully deletes the whole bucket file (the code unlinks it),
    which is why the frame of remove_fully is stated per location, not per key. *)
-From CC Require Import Bytes Codec Utf8 Lines Json Sri Record Fs Prog Api BytesP CodecP FsP ProgP SriP RecordP IndexP ReadP WriteP CommitP RemoveP Crash CrashP CrashIdxP KeepP JsonP RecCodecP MetaP HistP.
+From CC Require Import Bytes Codec Utf8 Lines Json Sri Record Fs Prog Api BytesP CodecP FsP ProgP SriP RecordP IndexP ReadP WriteP CommitP RemoveP Crash CrashP CrashIdxP KeepP JsonP RecCodecP MetaP HistP Sess TotalP ConfineP FaultP SessP LsWholeP LsHistP FaultFrameP RetryP TreeP.
 
 Section C09.
 Variable hash : algo -> bytes -> bytes.
@@ -77,13 +77,14 @@ Theorem C09_clear_usable f : NoDupKeys f -> RootShape f -> CacheInv (snd (run cl
 Proof. exact (clear_usable f). Qed.
 
 (* over histories (HistP.v): after ANY sequence of keyed writes (one-shot, streamed with any chunking), writes by address,
-   removals of keys and removals of content by address, the tree refines a three-part specification state — the map
+   removals of keys, removals of content by address and FULL removals (entry + content; the bucket file is unlinked, so every
+   key that shares it goes with it), the tree refines a three-part specification state — the map
    key -> (algorithm, data) of last writes, the list of stored contents, everything ever named — and every read answers
    from it: a removed key is "not found" while its content stays readable by address; a removed address makes exactly
    the keys that point at it fail (I/O error, never other bytes) while every other key and content reads as before. *)
 Theorem C09_history_refines (h : list (cop)) f0 s0 :
-  HashLen hash -> CInv hash f0 s0 -> forallb (c_ok hash) h = true -> NoColl hash (c_all (fold_left c_step h s0)) ->
-  let f := fold_left (c_run hash) h f0 in let s := fold_left c_step h s0 in
+  HashLen hash -> CInv hash f0 s0 -> forallb (c_ok hash) h = true -> NoColl hash (c_all (fold_left (c_step hash) h s0)) ->
+  let f := fold_left (c_run hash) h f0 in let s := fold_left (c_step hash) h s0 in
   (forall k, run (read hash k) f = (c_read s k, f)) /\
   (forall a d, In (a, d) (c_all s) ->
      run (read_hash hash (sri_of hash a d)) f = (if memb (a, d) (c_stored s) then Ok d else Err EIoErr, f)).
@@ -91,16 +92,34 @@ Proof. intros HL H0 Hok Hnc f s. exact (cinv_reads hash HL _ _ (chistory_refines
 
 (* the specification's own laws: removing a key clears that key only and leaves the store; removing an address leaves the map *)
 Theorem C09_spec_remove_key s key now :
-  (forall k, c_map (c_step s (CRemove key now)) k = if bytes_eqb k key then None else c_map s k) /\
-  c_stored (c_step s (CRemove key now)) = c_stored s.
+  (forall k, c_map (c_step hash s (CRemove key now)) k = if bytes_eqb k key then None else c_map s k) /\
+  c_stored (c_step hash s (CRemove key now)) = c_stored s.
 Proof. split; [intros k|]; reflexivity. Qed.
 Theorem C09_spec_remove_hash s a d x :
-  c_map (c_step s (CRemoveHash a d)) = c_map s /\
-  memb (a, d) (c_stored (c_step s (CRemoveHash a d))) = false /\
-  (x <> (a, d) -> memb x (c_stored (c_step s (CRemoveHash a d))) = memb x (c_stored s)).
+  c_map (c_step hash s (CRemoveHash a d)) = c_map s /\
+  memb (a, d) (c_stored (c_step hash s (CRemoveHash a d))) = false /\
+  (x <> (a, d) -> memb x (c_stored (c_step hash s (CRemoveHash a d))) = memb x (c_stored s)).
 Proof.
   split; [reflexivity|]. split; [apply memb_del_same|]. intros Hne. apply memb_del_other. congruence.
 Qed.
+
+Theorem C09_spec_remove_fully s key :
+  (forall k, c_map (c_step hash s (CRemoveFully key)) k
+             = if list_eqb bytes_eqb (bucket_path hash k) (bucket_path hash key) then None else c_map s k) /\
+  c_stored (c_step hash s (CRemoveFully key)) = match c_map s key with Some ad => del ad (c_stored s) | None => c_stored s end.
+Proof. split; [intros k|]; reflexivity. Qed.
+
+(* clearing, after ANY history (TreeP.v): the hypotheses of [C09_clear_scope] / [C09_clear_usable] — no location listed twice,
+   the cache directory a tree — are invariants of every step of every API program, so whatever was written and removed
+   before, clear succeeds, leaves nothing under the cache root, touches nothing outside, and the result is a usable cache *)
+Theorem C09_clear_after_history (h : list cop) :
+  HashLen hash ->
+  let f := fold_left (c_run hash) h [] in
+  fst (run clear f) = Ok tt /\
+  (forall p, lookup (snd (run clear f)) (InCache p) = None) /\
+  (forall n, lookup (snd (run clear f)) (Ext n) = lookup f (Ext n)) /\
+  CacheInv (snd (run clear f)).
+Proof. intros HL. exact (clear_after_history hash HL h). Qed.
 
 End C09.
 
@@ -143,11 +162,11 @@ Print Assumptions C09_clear_usable.
 (* non-vacuity of the history theorem: two keys share one content; the content is removed by address; one key is rewritten *)
 Example C09_history_example :
   let h := [CWrite Sync Sha256 (bs "k1") (bs "same") 1%N; CStream Async (bs "k2") (mkWopts (Some Sha256) None None None None None) [bs "sa"; bs "me"] 2%N;
-            CWriteHash Sync Sha1 (bs "other"); CRemoveHash Sha256 (bs "same"); CWrite Sync Sha1 (bs "k1") (bs "new") 5%N; CRemove (bs "k3") 6%N] in
-  forallb (c_ok toy_hash) h = true /\ NoColl toy_hash (c_all (fold_left c_step h cspec0)) /\
-  c_read (fold_left c_step h cspec0) (bs "k1") = Ok (bs "new") /\
-  c_read (fold_left c_step h cspec0) (bs "k2") = Err EIoErr /\
-  c_read (fold_left c_step h cspec0) (bs "k3") = Err ENotFound.
+            CWriteHash Sync Sha1 (bs "other"); CRemoveHash Sha256 (bs "same"); CWrite Sync Sha1 (bs "k1") (bs "new") 5%N; CRemove (bs "k3") 6%N; CWrite Sync Sha1 (bs "k4") (bs "four") 7%N; CRemoveFully (bs "k4")] in
+  forallb (c_ok toy_hash) h = true /\ NoColl toy_hash (c_all (fold_left (c_step toy_hash) h cspec0)) /\
+  c_read (fold_left (c_step toy_hash) h cspec0) (bs "k1") = Ok (bs "new") /\
+  c_read (fold_left (c_step toy_hash) h cspec0) (bs "k2") = Err EIoErr /\
+  c_read (fold_left (c_step toy_hash) h cspec0) (bs "k3") = Err ENotFound.
 Proof.
   split; [vm_compute; reflexivity|]. split; [|repeat split; vm_compute; reflexivity].
   intros a d a' d' H1 H2 Hc. cbn in H1, H2.
@@ -157,3 +176,5 @@ Qed.
 Print Assumptions C09_history_refines.
 Print Assumptions C09_spec_remove_key.
 Print Assumptions C09_spec_remove_hash.
+Print Assumptions C09_spec_remove_fully.
+Print Assumptions C09_clear_after_history.
